@@ -155,8 +155,15 @@ def check(case, ctx):
             kw["fill_value"] = build.copy_arg(fill, rev)
         return pad(da, grid, boundary_width=dict(bw), **kw)
 
+    # a call that names nothing per call, before and after the one with per-call arguments: the grid-level settings
+    # are in force both times (per-call choices must not stick to the Grid)
+    exp0, comparable0 = model_pad(case["values"], dims, case, by_name, g_rules, g_fills)
+    got0 = must_return("pad (grid-level settings only)", do_pad, None, None)
+    compare(got0, dims, exp0, comparable0, "pad with grid-level settings only")
     got = must_return("pad", do_pad, case["call_boundary"], case["call_fill"])
     compare(got, dims, exp, comparable, "pad vs index-level model")
+    got0b = must_return("pad (grid-level settings only, after a call with per-call arguments)", do_pad, None, None)
+    compare(got0b, dims, exp0, comparable0, "pad with grid-level settings only, issued after a call with per-call arguments")
 
     # (3) re-spellings of the same choice
     total_b = {n: rules[n] for n in names}
